@@ -343,6 +343,12 @@ impl Check for C11 {
                 }
             }
         }
+        // wide path sets: tens to hundreds of targeted siblings below one node (keys and indexes)
+        for (i, w) in [1usize, 31, 32, 33, 62, 63, 64, 65, 66, 100, 127, 128, 129, 200, 256, 257, 300, 520].iter().enumerate() {
+            if g.mine(1000 + i as u64) {
+                emit(Case::with("wide-set", vec![], &[*w as i64, r.next() as i64]));
+            }
+        }
         let n = g.count(150_000, 8_000_000);
         for k in 0..n {
             let mut o = DocOpts::random(&mut r);
@@ -378,6 +384,45 @@ impl Check for C11 {
             ctx.sample("deep-member");
             return;
         }
+        if c.entry == "wide-set" {
+            let (w, seed) = (c.p(0) as usize, c.p(1) as u64);
+            let mut r = Rng::new(seed);
+            ctx.nontrivial();
+            ctx.class("set:wide");
+            let members: Vec<String> = (0..w).map(|i| format!("\"k{}\":{}", i, match i % 4 { 0 => format!("{}", i), 1 => format!("\"v{}\"", i), 2 => format!("[{}]", i), _ => format!("{{\"z\":{}}}", i) })).collect();
+            let elems: Vec<String> = (0..w).map(|i| format!("{}", i * 3)).collect();
+            let doc = format!("{{\"pre\":0,\"outer\":{{{}}},\"arr\":[{}],\"post\":{{\"in\":[1,2]}}}}", members.join(","), elems.join(" , "));
+            let Ok(d) = recog::parse_document(doc.as_bytes()) else { return };
+            // every sibling in a shuffled order; the same with a few missing names mixed in; every
+            // index; a prefix of the siblings plus targets elsewhere
+            let mut order: Vec<usize> = (0..w).collect();
+            for i in (1..order.len()).rev() {
+                order.swap(i, r.below(i as u64 + 1) as usize);
+            }
+            let all_keys: Vec<Vec<PathEl>> = order.iter().map(|i| vec![PathEl::Key("outer".into()), PathEl::Key(format!("k{}", i))]).collect();
+            let mut with_missing = all_keys.clone();
+            for j in 0..3 {
+                let at = r.below(with_missing.len() as u64 + 1) as usize;
+                with_missing.insert(at, vec![PathEl::Key("outer".into()), PathEl::Key(format!("absent{}", j))]);
+            }
+            let all_idx: Vec<Vec<PathEl>> = order.iter().map(|i| vec![PathEl::Key("arr".into()), PathEl::Idx(*i)]).collect();
+            let mut mixed: Vec<Vec<PathEl>> = all_keys.iter().take(w / 2 + 1).cloned().collect();
+            mixed.push(vec![PathEl::Key("post".into()), PathEl::Key("in".into()), PathEl::Idx(1)]);
+            mixed.push(vec![PathEl::Key("pre".into())]);
+            mixed.extend(all_idx.iter().take(w / 2 + 1).cloned());
+            let deeper: Vec<Vec<PathEl>> = order.iter().filter(|i| *i % 4 == 3).map(|i| vec![PathEl::Key("outer".into()), PathEl::Key(format!("k{}", i)), PathEl::Key("z".into())]).chain(order.iter().filter(|i| *i % 4 == 2).map(|i| vec![PathEl::Key("outer".into()), PathEl::Key(format!("k{}", i)), PathEl::Idx(0)])).collect();
+            for ps in [&all_keys, &with_missing, &all_idx, &mixed, &deeper] {
+                if ps.is_empty() {
+                    continue;
+                }
+                check_get_many(ctx, doc.as_bytes(), &d.root, ps, false);
+                if ps.iter().all(|p| lookup(&d.root, p).is_ok()) {
+                    check_get_many(ctx, doc.as_bytes(), &d.root, ps, true);
+                }
+            }
+            ctx.sample("wide-set");
+            return;
+        }
         let d = match recog::parse_document(b) {
             Ok(d) if d.full_ok() && d.flags.max_depth <= 64 && !d.flags.has_dup_keys => d,
             _ => {
@@ -405,6 +450,6 @@ impl Check for C11 {
         ctx.sample("doc");
     }
     fn required_classes(&self, _b: &str, _t: Tier) -> Vec<&'static str> {
-        vec!["set:checked", "set:all-resolve", "set:some-missing", "set:repeated-path", "schema:checked", "set:deep-member"]
+        vec!["set:checked", "set:all-resolve", "set:some-missing", "set:repeated-path", "schema:checked", "set:deep-member", "set:wide"]
     }
 }
